@@ -27,10 +27,11 @@ Section Channel.
             | Some (inr se) => [MErr (ChScan se)]
             end ++ [MDone].
 
-  (** ParseFile: an unreadable path sends the I/O error and returns without Done *)
+  (** ParseFile: an unreadable path sends the I/O error and then Done, as ParseStream does after every other error (fix F23;
+      before, it returned without Done and a consumer that keeps receiving until completion waited for ever) *)
   Definition file_sends (content : option (bytes * read_fault)) : list msg :=
     match content with
-    | None => [MErr ChIO]
+    | None => [MErr ChIO; MDone]
     | Some (d, f) => stream_sends d f
     end.
 
